@@ -50,7 +50,22 @@ def gen_plan(base_seed, i, tier):
             rng.shuffle(warm)
             ctx["warm"] = warm[: rng.randint(1, len(warm))]
         ctxs.append(ctx)
-    return {"property": "C06", "kind": "contexts", "rows": rows, "contexts": ctxs}
+    plan = {"property": "C06", "kind": "contexts", "rows": rows, "contexts": ctxs}
+    if rng.random() < 0.2:
+        # the same faults in every context (addressed by reaction and search condition, never written late):
+        # with the environment held fixed the rows still must not depend on order, partition or workers
+        rows[:] = list(dict.fromkeys(rows))  # no duplicates here: their jobs are told apart by execution order
+        rate = rng.choice([0.15, 0.3, 0.5])
+        fs = {"rates": {"mcs_job": {"hang": rate}, "frag_job": {"timeout": rate / 2, "exception": rate / 2}}, "zombie_q": 0.0}
+        seed = rng.getrandbits(40)
+        for c in ctxs:
+            c["perm"] = [j for j in c["perm"] if j < len(rows)]
+            c["reuse"] = False
+            c.pop("warm", None)
+            c["sim"]["faults"] = fs
+            c["sim"]["fault_seed"] = seed
+        plan["fixed_faults"] = True
+    return plan
 
 
 def _sum_stats(stats_list):
@@ -67,6 +82,8 @@ def execute(plan):
     rows_in = plan["rows"]
     out = {"violations": [], "nontrivial": None, "summary": [], "runs": 0}
     refs = [common.reference_row(r) for r in rows_in]
+    fixed = bool(plan.get("fixed_faults"))
+    base_rows = None  # rows of the first context, by reaction (fixed-fault plans compare contexts with each other)
     vs = []
     nontriv = []
     for ci, ctx in enumerate(plan["contexts"]):
@@ -97,6 +114,19 @@ def execute(plan):
                 continue
             if len(rows) != len(order_now):
                 vs.append(oracles.V("C06", "row_count", "count", "%s returned %d rows for %d inputs: %s" % (where, len(rows), len(order_now), order_now)))
+                continue
+            if fixed:
+                if base_rows is None:
+                    base_rows = {inp: row for inp, row in zip(order_now, rows)}
+                    base_where = where
+                for inp, row in zip(order_now, rows):
+                    diff = oracles.rows_equal(row, base_rows.get(inp, row))
+                    if diff:
+                        vs.append(oracles.V("C06", "row_depends_on_context_under_fixed_faults", ",".join(diff),
+                                            "same injected MCS-stage failures in both runs (%s): %s is %r in %s but %r in %s" % (
+                                                sorted(res["fired"].items()), inp, {k: row[k] for k in diff}, where, {k: base_rows[inp][k] for k in diff}, base_where)))
+                if res["fired"] and len({(r["solved"], r["solved_by"]) for r in rows}) >= 2:
+                    nontriv.append("%016x" % H(order_now, ctx["config"], "fixed-faults"))
                 continue
             for inp, (ref, _), row in zip(order_now, refs_now, rows):
                 if ref is None:
